@@ -1,5 +1,6 @@
 import TextxVerif.Proofs.BaseTypes
 import TextxVerif.Proofs.BaseTypesLine
+import TextxVerif.Registry
 /-!
 # C04 — built-in base types convert text to values faithfully
 
@@ -453,5 +454,24 @@ example : lineHyp .STRICTFLOAT [⟨[], "12".toList⟩] [] = false ∧ lineHyp .F
 example : lineHyp .STRING [⟨[], "\"a\\\"b\"".toList⟩, ⟨[], "'c\\''".toList⟩, ⟨[' '], "\"\"".toList⟩] ['\n'] = true := by decide
 example : strLit? "'it\\'s \\\\ \"x\"'".toList = some ('\'', "it's \\\\ \"x\"".toList) := by decide
 example : strLit? "\"a\\\"".toList = none ∧ strLit? "\"a\"b\"".toList = none := by decide
+
+/-- **Registrations replace, they do not accumulate (round X04).**  On a meta-model, after any history of
+`register_obj_processors` calls, every base-type key that the *last* registration does not mention is bound to
+its built-in conversion again (and so it is on a meta-model on which nothing was registered): the conversions
+the theorems above speak about are in force whatever was registered — and replaced — before.  (`Registry.after`
+mirrors `register_obj_processors`: a fresh copy of the defaults, updated; tied to the live table by the
+correspondence op `tokens` with `"hist"`.) -/
+theorem C04_registration_replaces (hist : List (List (String × String))) (ps : List (String × String))
+    (k : String) (hk : k ∈ Registry.defaultKeys) (hfree : ∀ kv ∈ ps, kv.1 ≠ k) :
+    Registry.after (hist ++ [ps]) k = some .builtin ∧ Registry.after [] k = some .builtin := by
+  constructor
+  · rw [Registry.after_snoc, Registry.update_other _ _ _ hfree]
+    simp [Registry.defaults, hk]
+  · simp [Registry.after, Registry.register, Registry.update, Registry.defaults, hk]
+
+/-- a registration that mentions the key binds it to the user's processor: the hypothesis `hfree` is needed -/
+example : Registry.after [[("INT", "hex")]] "INT" = some (.user "hex") := by decide
+
+example : Registry.after [[("INT", "hex")], [("Model", "obj")]] "INT" = some .builtin := by decide
 
 end BaseTypes
